@@ -26,15 +26,19 @@ pub async fn main() -> anyhow::Result<()> {
         Some(host) => format!("{}:{}", host, config.port).parse()?,
         None => SocketAddrV4::new(Ipv4Addr::LOCALHOST, config.port),
     };
+    let mut udp_task = None;
     if config.mode.enable_udp() {
         let socket = UdpSocket::bind(listen_addr).await?;
         info!("Listening UDP on: {}", socket.local_addr()?);
-        tokio::spawn(transfer_udp(socket, current.clone()));
+        udp_task = Some(tokio::spawn(transfer_udp(socket, current.clone())));
     }
     if config.mode.enable_tcp() {
         let listener = TcpListener::bind(listen_addr).await?;
         info!("Listening TCP on: {}", listener.local_addr()?);
         transfer_tcp(listener, current).await;
+    } else if let Some(udp_task) = udp_task {
+        // mode "udp": the UDP relay is the service; without waiting for it the process would exit at once
+        udp_task.await?;
     }
     Ok(())
 }
